@@ -32,10 +32,8 @@ ben('mkdir_helper_extracted', [(MV, 's', "    fn mkdir_p<'a, T: AsRef<Path>>(&se
                                 "    // Shared body of mkdir_p / mkdir_m under an already held guard\n    fn _mkdir_locked<T: AsRef<Path>>(&self, guard: &mut MemfsGuard, path: T, mode: Option<u32>) -> RvResult<PathBuf> {\n        let abs = self._abs(guard, path)?;\n        self._mkdir_m(guard, &abs, mode)?;\n        Ok(abs)\n    }\n\n    // Execute chmod with the given options\n    fn _chmod(&self, opts: ChmodOpts) -> RvResult<()> {")])
 ben('xdg_helper_refactor', [(US, 's', "pub fn cache_dir() -> RvResult<PathBuf> {\n    Ok(match env::var(\"XDG_CACHE_HOME\") {\n        Ok(x) => PathBuf::from(x),\n        Err(_) => home_dir()?.mash(\".cache\"),\n    })\n}",
                              "pub fn cache_dir() -> RvResult<PathBuf> {\n    let value = env::var(\"XDG_CACHE_HOME\");\n    Ok(match value {\n        Ok(x) => PathBuf::from(x),\n        Err(_) => {\n            let home = home_dir()?;\n            home.mash(\".cache\")\n        },\n    })\n}")])
-ben('reorder_validations_remove', [(MV, 's', "    fn remove<T: AsRef<Path>>(&self, path: T) -> RvResult<()> {\n        let mut guard = self.write_guard();\n        let path = self._abs(&guard, path)?;\n",
-                                    "    fn remove<T: AsRef<Path>>(&self, path: T) -> RvResult<()> {\n        let mut guard = self.write_guard();\n        let path = self._abs(&guard, path)?;\n        let dir = path.dir()?;\n"),
-                                   (MV, 's', "        // Next remove the file from its parent\n        let dir = path.dir()?;\n        if let Some(entry) = guard.get_entry_mut(&dir) {\n            entry.remove(path.base()?)?;",
-                                    "        // Next remove the file from its parent\n        if let Some(entry) = guard.get_entry_mut(&dir) {\n            entry.remove(path.base()?)?;")])
+# (reorder_validations_remove was dropped: hoisting `path.dir()?` above the emptiness test changes the error of remove("/") on a non-empty root from
+#  DirContainsFiles to ParentNotFound — not behaviour-preserving; SITE-GUARD reports it)
 ben('read_rename_and_comment', [(MF, 's', "        let pos = cmp::min(self.pos, self.data.len() as u64) as usize;", "        // clamp the start offset to the data length\n        let start = cmp::min(self.pos, self.data.len() as u64) as usize;"),
                                 (MF, 're', r'\[pos\.\.pos \+ len\]', '[start..start + len]')])
 ben('entries_process_rename', [(EN, 're', r'\bdepth\b', 'level')])
